@@ -156,6 +156,15 @@ def run(ctx):
     ID_GEOMS = ["default", "Continuous1D", "Discrete", "Image2D", "Continuous2D"]
     GKIND = {**{k: "id" for k in ID_GEOMS}, "Mapped": "nonid", "KL": "nonid", "Step": "nonid", "Mapped+grad": "nonid-grad"}
 
+    # ----------------------------------------------------------------------- 0. the list of identity geometries the guards use
+    assumed = ctx.lean.drive(["idgeoms"])[0].split(",")
+    actual = [c.__name__ for c in G._get_identity_geometries()]
+    ctx.case("identity-geometry-list", {"assumed": assumed, "actual": actual})
+    if sorted(assumed) != sorted(actual):
+        ctx.disagree("identity-geometries:list", {"assumed": assumed, "actual": actual}, assumed, actual,
+                     "cuqi.geometry._get_identity_geometries() is not the list the decision table assumes")
+        # failing input search: a geometry newly treated as identity must not change a likelihood gradient (section 5 runs Mapped/KL/Step domains)
+
     # ======================================================================= 1. i.i.d. families
     def gen_iid(fam, n, mode):
         """returns (x, params[3] as lists, support bounds lo, hi) — mode: 'in' | 'out' | 'edge'"""
@@ -251,6 +260,9 @@ def run(ctx):
             n = 1 if (fam == "mhn" and k % 3 != 2) else rng.choice([1, 2, 3, 4, 5] if not thorough else [1, 2, 3, 4, 5, 9, 16, 40])
             mode = ["in", "in", "in", "in", "edge", "out"][k % 6]
             x, P, lo, hi = gen_iid(fam, n, mode)
+            if k % 15 == 14 and n >= 2 and fam not in ("mhn",):
+                mode = "malformed"            # a parameter vector whose length is neither 1 nor n
+                P[0] = list(P[0])[:1] * (n + 1)
             cases.append((fam, n, mode, x, P, lo, hi))
     lines = []
     for fam, n, mode, x, P, lo, hi in cases:
@@ -275,6 +287,18 @@ def run(ctx):
             ctx.disagree(key + ":status", desc, mst, f"{st}({exc})", "status differs")
             if st in ("value",):
                 oracle_value(ctx, key + ":status", desc, dist.logd, val, xa, lo, hi)
+            elif st == "nan":
+                with quiet():
+                    try:
+                        l0 = float(dist.logd(xa))
+                    except Exception:  # noqa
+                        l0 = float("nan")
+                if math.isfinite(l0):
+                    ctx.fail(key + ":status", desc, "a finite gradient (logd is finite here)", "NaN", "NaN gradient where the log-density is finite")
+            elif st == "none":
+                ctx.fail(key + ":status", desc, "vector or raise", "None", "gradient returns None")
+            elif st == "not-vector":
+                ctx.fail(key + ":status", desc, f"vector of length {n}", f"shape {val.shape}", "gradient does not return a vector")
             continue
         if st == "not-vector":
             ctx.fail(f"{fam}:{dimcls}:not-a-vector", desc, f"vector of length {n}", f"array of shape {None if val is None else val.shape}",
@@ -364,9 +388,12 @@ def run(ctx):
         bump(f"status:{fam.split(':')[0]}:{st}")
         if ist != mst:
             ctx.disagree(key + ":status", desc, mst, f"{st}({exc})", "status differs from the decision table")
+            if fd and mst == "value-fd" and st == "raise":
+                ctx.fail(key + ":status", desc, "finite-difference gradient (FD enabled)", f"raise({exc})",
+                         "with the finite-difference option switched on the call still refuses")
         # oracle on what the implementation did
         if st == "none":
-            ctx.fail(f"{fam}:callable-param:returns-none", desc, "raise (no analytic gradient available)", "None",
+            ctx.fail(f"{fam}:{'callable-param' if cond else 'plain'}:returns-none", desc, "raise (no analytic gradient available)", "None",
                      "gradient returns None instead of raising when no analytic gradient is available")
         elif st == "not-vector":
             ctx.fail(f"{fam}:{'dim1' if n == 1 else 'dim>1'}:not-a-vector", desc, f"vector of length {n}", f"shape {val.shape}",
@@ -483,6 +510,56 @@ def run(ctx):
                     ctx.disagree(key + ":fd", desc, mfd, val2.tolist(), "FD gradient differs from the model's forward difference")
                 oracle_value(ctx, key + ":fd", desc, dist.logd, val2, xa, tol=2e-3)
 
+    # ----------------------------------------------------------------------- 3b. Lognormal prior, every covariance form
+    lncases = []
+    for k in range(24 * S):
+        n = rng.choice([1, 2, 3, 4])
+        shape = ["scalar", "vector", "dense", "dense"][k % 4]
+        if shape == "scalar" or (n == 1):
+            C = np.array([[rng.choice([0.5, 1.0, 2.0, 4.0])]]); shape = "scalar"
+        elif shape == "vector":
+            C = np.array([[rng.choice([0.5, 1.0, 2.0, 4.0]) for _ in range(n)]])
+        else:
+            C = rand_spd(n)
+        mu = [dy(rng, -2, 2) for _ in range(n)]
+        x = [dy(rng, 0.25, 4, 8) for _ in range(n)]
+        if k % 6 == 5:
+            x[rng.randrange(n)] = rng.choice([0.0, -0.5])
+        lncases.append((shape, n, x, mu, C))
+    lnlines = []
+    for shape, n, x, mu, C in lncases:
+        lx = [math.log(v) if v > 0 else 0.0 for v in x]
+        lnlines.append(f"logndense {qv(x)} {qv(lx)} {qv(mu)} {qm(C)}")
+    lnouts = ctx.lean.drive(lnlines)
+    for (shape, n, x, mu, C), out in zip(lncases, lnouts):
+        desc = {"lognormal": shape, "n": n, "x": x, "mean": mu, "cov": C.tolist()}
+        ctx.case("lognormal-prior", desc)
+        key = f"Lognormal:cov-{shape}:{'dim1' if n == 1 else 'dim>1'}"
+        arg = float(C[0, 0]) if shape == "scalar" else (C[0] if shape == "vector" else C)
+        try:
+            with quiet():
+                dist = D.Lognormal(np.array(mu), arg)
+        except Exception as e:  # noqa
+            ctx.note(f"constructor refused {desc}: {e!r}"[:160]); continue
+        xa = np.array(x, dtype=float)
+        st, exc, val = classify(lambda: dist.gradient(xa), n)
+        bump(f"lognormal-prior:{st}")
+        mt = out.split()
+        if st != mt[0]:
+            ctx.disagree(key + ":status", desc, mt[0], f"{st}({exc})", "status differs")
+            if st == "value":
+                oracle_value(ctx, key + ":status", desc, dist.logd, val, xa, [0.0] * n, None)
+            continue
+        if st == "value":
+            if not cmp_vec(decv(mt[1]), val.tolist(), 1e-8):
+                ctx.disagree(key, desc, decv(mt[1]), val.tolist(), "gradient differs from the model")
+            oracle_value(ctx, key, desc, dist.logd, val, xa, [0.0] * n, None)
+        elif st == "nan":
+            with quiet():
+                l0 = float(dist.logd(xa))
+            if math.isfinite(l0):
+                ctx.fail(key + ":nan-inside-support", desc, "finite gradient", "NaN", "NaN gradient where the log-density is finite")
+
     # ======================================================================= 4. GMRF / CMRF
     mcases = []
     for k in range(45 * S):
@@ -565,7 +642,7 @@ def run(ctx):
 
     lcases = []
     MODELS = ["matrix", "fun+adjoint", "jacobian", "direction-jacobian", "pde-jacobian", "pde-gradient", "no-gradient", "pde-none"]
-    DGEOMS = ["default", "Continuous1D", "Discrete", "Mapped+grad", "Mapped", "Step"]
+    DGEOMS = ["default", "Continuous1D", "Mapped+grad", "Discrete", "Mapped+grad", "Mapped", "default", "Step"]
     for k in range(144 * S):
         m = rng.choice([1, 2, 3]); n = rng.choice([1, 2, 3, 4])
         mk = MODELS[k % len(MODELS)]
@@ -574,7 +651,8 @@ def run(ctx):
         F, J, lin, A = rand_forward(m, n)
         if mk in ("matrix", "fun+adjoint"):
             F, J, lin = (lambda z, A=A: A @ z), (lambda z, A=A: A), True
-        dform = rng.choice(["cov-scalar", "cov-vector", "cov-dense", "prec-dense", "sqrtcov-dense", "sqrtprec-dense", "prec-vector", "lognormal-cov-vector", "lognormal-cov-dense"])
+        dform = rng.choice(["cov-scalar", "cov-vector", "cov-dense", "cov-dense", "prec-dense", "prec-dense", "sqrtcov-dense", "sqrtcov-dense", "sqrtprec-dense", "prec-vector",
+                              "lognormal-cov-vector", "lognormal-cov-dense", "lognormal-cov-dense"])
         prior = rng.choice(["none", "gaussian", "cauchy", "gmrf", "two-likelihoods"])
         fd = (k % 7 == 3)
         lcases.append((m, n, mk, dg, rgk, F, J, lin, A, dform, prior, fd))
